@@ -385,6 +385,9 @@ func (e *kvElection) becomeLeader(token string, rev uint64) {
 		}
 	}
 
+	// the consecutive-failure count of the health checker belongs to one term
+	e.healthFailureCount.Store(0)
+
 	e.isLeader.Store(true)
 	e.leaderID.Store(e.cfg.InstanceID)
 	e.token.Store(token)
